@@ -4,7 +4,7 @@ from harness.canon import hx, tx, unhx, untx
 from harness.props.addr_common import IMPL, fmt_table, kwfields, rand_priv, pub_forms, conv_kw, PRIV, PUB
 from bip_utils import Secp256k1PrivateKey, Ed25519PrivateKey, Nist256p1PrivateKey
 
-LEAN_MODULES = ["BipVerif.Props.C09"]
+LEAN_MODULES = ["BipVerif.Props.C09", "BipVerif.Props.C09Tables"]
 
 
 def pre_build():
@@ -36,7 +36,7 @@ def gen(rng, tier):
         kw0 = dict(params[0])
         for j in range(scan):
             pub = pub_forms(curve, rand_priv(rng, curve))[0]
-            kw = dict(kw0)
+            kw = dict(kw0 if j % 2 == 0 else params[-1])
             if fmt in ("xmr", "xmrint"):
                 kw["pub_vkey"] = hx(pub_forms(curve, rand_priv(rng, curve))[0])
                 if fmt == "xmrint":
@@ -58,8 +58,25 @@ def gen(rng, tier):
             if ln != modal:
                 picked += [(0, pub, kw) for pub, kw in lst[:2]]
         picked.sort(key=lambda t: t[0])
-        for _, pub, kw in picked[:4 if tier == "quick" else 40]:
+        for _, pub, kw in picked[:6 if tier == "quick" else 40]:
             yield Case("addrenc", [fmt, hx(pub)] + kwfields(kw), "enc-outputdep")
+            try:
+                yield Case("addrdec", [fmt, tx(enc.EncodeKey(pub, **conv_kw(fmt, kw)))] + kwfields(kw), "dec-outputdep")
+            except Exception:  # noqa
+                pass
+        if fmt == "aptos":
+            import hashlib
+            got = 0
+            for j in range(20000):
+                pub = pub_forms(curve, rand_priv(rng, curve))[0]
+                h = hashlib.sha3_256(pub[1:] + b"\x00").digest()
+                if h[0] == 0:          # two or more trimmed digits in the short form
+                    for kw in params:
+                        yield Case("addrenc", [fmt, hx(pub)] + kwfields(kw), "enc-aptos-leading-zero-byte")
+                        yield Case("addrdec", [fmt, tx(enc.EncodeKey(pub, **conv_kw(fmt, kw)))] + kwfields(kw), "dec-aptos-leading-zero-byte")
+                    got += 1
+                    if got >= 2:
+                        break
         if fmt == "nim":
             import hashlib
             from harness.props.c10 import _nim_checksum, NIM_ALPHABET
@@ -170,3 +187,46 @@ def relations(rng, tier, rpt):
                             "input": junk.hex(), "impl_output": got, "model_output": "ValueError", "no_failing_input": False})
     rpt.extra["wrong_curve_checks"] = n
     return bad[:6]
+
+
+def _b58(b, alphabet="123456789ABCDEFGHJKLMNPQRSTUVWXYZabcdefghijkmnopqrstuvwxyz"):
+    n, out = int.from_bytes(b, "big"), ""
+    while n:
+        n, r = divmod(n, 58)
+        out = alphabet[r] + out
+    return alphabet[0] * (len(b) - len(b.lstrip(b"\0"))) + out
+
+
+def search_broken(broken, rng):
+    """the constants table theorem failed: name the constant whose value differs from the pinned one and, where an address depends on
+    it through a simple published rule, exhibit a key whose address differs from that rule evaluated with the registered constant."""
+    import hashlib, json, os
+    from harness.core import VERIF
+    from gen.gen_consts import coins_conf, proto_enums
+    g = json.load(open(os.path.join(VERIF, "golden", "consts.json")))
+    cur_e = {(c, m): (k, list(v)) for c, m, k, v in proto_enums()}
+    for c, m, k, v in g["protoEnums"]:
+        got = cur_e.get((c, m))
+        if got == (k, list(v)):
+            continue
+        if c == "XtzAddrPrefixes" and got is not None:
+            from bip_utils import XtzAddrEncoder, XtzAddrPrefixes, Ed25519PrivateKey
+            pub = Ed25519PrivateKey.FromBytes(rand_priv(rng, "ed25519")).PublicKey()
+            addr = XtzAddrEncoder.EncodeKey(pub, prefix=XtzAddrPrefixes[m])
+            payload = bytes(v) + hashlib.blake2b(pub.RawCompressed().ToBytes()[1:], digest_size=20).digest()
+            want = _b58(payload + hashlib.sha256(hashlib.sha256(payload).digest()).digest()[:4])
+            if addr != want:
+                return {"relation": "Tezos address with prefix %s differs from Base58Check(registered prefix %s || BLAKE2b-160(key))" % (m, bytes(v).hex()),
+                        "entry_point": "XtzAddrEncoder.EncodeKey(pub, prefix=XtzAddrPrefixes.%s)" % m, "input": pub.RawCompressed().ToHex(),
+                        "impl_output": addr, "model_output": want}
+        return {"relation": "public enumeration member %s.%s no longer has its registered protocol value" % (c, m), "entry_point": "%s.%s.value" % (c, m),
+                "input": "%s.%s" % (c, m), "impl_output": "missing" if got is None else repr(got[1]), "model_output": repr(list(v))}
+    cur_c = {n: (nm, ab, [(k, kind, list(val)) for k, kind, val in ps]) for n, nm, ab, ps in coins_conf()}
+    for n, nm, ab, ps in g["coinsConf"]:
+        got = cur_c.get(n)
+        want = (nm, ab, [(k, kind, list(val)) for k, kind, val in ps])
+        if got != want:
+            what = "names" if got is not None and got[2] == want[2] else "parameters"
+            return {"relation": "raw coin configuration CoinsConf.%s: %s differ from the registered ones" % (n, what), "entry_point": "CoinsConf.%s" % n,
+                    "input": n, "impl_output": repr(got), "model_output": repr(want)}
+    return None
